@@ -597,6 +597,94 @@ structure EnvelopeSafe (co : Str → Str) (a : Accepted) : Prop where
   to : ∀ r ∈ a.qmeta.to, co r = r
   orc : ∀ q ∈ a.qmeta.msgMeta.originalRcpts, co q.1 = q.1 ∧ co q.2 = q.2
 
+/-! ### every address once per attempt (`seenRcpts`, fix 6b03754) -/
+
+/-- collapsing duplicates neither loses nor invents a recipient -/
+theorem mem_dedup {r : Str} : ∀ {l : List Str}, r ∈ dedup l ↔ r ∈ l
+  | [] => by simp [dedup]
+  | x :: l => by
+    have ih := @mem_dedup r l
+    by_cases h : r = x
+    · simp [dedup, h]
+    · simp [dedup, List.mem_filter, ih, h]
+
+/-- ... and names every address once -/
+theorem nodup_dedup : ∀ l : List Str, (dedup l).Nodup
+  | [] => by simp [dedup]
+  | x :: l => by
+    have ih := nodup_dedup l
+    simp only [dedup, List.nodup_cons]
+    exact ⟨by simp [List.mem_filter], ih.filter _⟩
+
+/-- ... in the order of the list it was given (what is dropped is dropped from behind: see
+`dedup_cons`) -/
+theorem dedup_sublist : ∀ l : List Str, (dedup l).Sublist l
+  | [] => by simp [dedup]
+  | x :: l => by
+    simp only [dedup]
+    exact ((List.filter_sublist (l := dedup l)).trans (dedup_sublist l)).cons_cons x
+
+/-- a list without duplicates is left alone -/
+theorem dedup_of_nodup : ∀ {l : List Str}, l.Nodup → dedup l = l
+  | [], _ => by simp [dedup]
+  | x :: l, h => by
+    have hx : x ∉ l := (List.nodup_cons.mp h).1
+    have ih := dedup_of_nodup (List.nodup_cons.mp h).2
+    simp only [dedup, ih]
+    congr 1
+    exact List.filter_eq_self.mpr (fun y hy => by
+      have : y ≠ x := fun e => hx (e ▸ hy)
+      simpa using this)
+
+theorem dedup_idem (l : List Str) : dedup (dedup l) = dedup l := dedup_of_nodup (nodup_dedup l)
+
+/-- the code's form of the walk - skip an address already classified, classify the others one by
+one (`keep` = "retry") - is the collapsed list of the entries classified "retry" -/
+theorem dedup_filter (keep : Str → Bool) (l : List Str) :
+    dedup (l.filter keep) = (dedup l).filter keep := by
+  induction l with
+  | nil => simp [dedup]
+  | cons y l ih =>
+    by_cases hp : keep y = true
+    · simp only [List.filter_cons, hp, if_true, dedup, ih, List.filter_filter]
+      congr 1
+      exact List.filter_congr (fun z _ => Bool.and_comm _ _)
+    · have hp' : keep y = false := by simpa using hp
+      simp only [List.filter_cons, hp', dedup, List.filter_filter, Bool.false_eq_true, if_false]
+      rw [ih]
+      refine List.filter_congr (fun z _ => ?_)
+      by_cases hz : z = y
+      · simp [hz, hp']
+      · simp [hz]
+
+/-- the FIRST entry naming an address is the one that stays: the head is kept, every later entry
+naming the same address is dropped -/
+theorem dedup_cons (x : Str) (l : List Str) : dedup (x :: l) = x :: dedup (l.filter (· != x)) := by
+  simp [dedup, dedup_filter]
+
+theorem mem_pending {next : List Str → List Str} {to : List Str} {r : Str} :
+    r ∈ pending next to ↔ r ∈ next to := mem_dedup
+
+/-- **C10 (pending recipients after an attempt).** What `tryDelivery` keeps for the next attempt is
+the SET of the entries it classified "retry" - nobody disappears, nobody appears -, every address
+once, in the order of first occurrence; an envelope that lists nobody twice is kept as classified. -/
+theorem C10_pending_is_the_retry_set_each_once (next : List Str → List Str) (to : List Str) :
+    (∀ r, r ∈ pending next to ↔ r ∈ next to) ∧ (pending next to).Nodup ∧
+    (pending next to).Sublist (next to) ∧
+    (∀ x l, next to = x :: l → pending next to = x :: dedup (l.filter (· != x))) ∧
+    ((next to).Nodup → pending next to = next to) :=
+  ⟨fun _ => mem_dedup, nodup_dedup _, dedup_sublist _,
+    fun x l h => by simp only [pending, h, dedup_cons], fun h => dedup_of_nodup h⟩
+
+/-- the same for the addresses reported as given up (`failedRcpts`) -/
+theorem C10_given_up_each_once (dsn : Dsn) (to : List Str) :
+    (∀ r, r ∈ givenUp dsn to ↔ r ∈ dsn.failed to) ∧ (givenUp dsn to).Nodup :=
+  ⟨fun _ => mem_dedup, nodup_dedup _⟩
+
+example : dedup [2, 3, 2] = [2, 3] := by decide
+example : dedup [3, 2, 3, 3, 2, 5] = [3, 2, 5] := by decide
+example : pending (fun to => to.filter (· != 3)) [2, 3, 2, 4, 4] = [2, 4] := by decide
+
 /-- the retry list of an attempt is drawn from the recipients it was given
 (`tryDelivery` builds `newRcpts` by walking `meta.To`) -/
 def StepOK : Step → Prop
@@ -755,7 +843,7 @@ theorem panSeens_attempt (vis : Vis) (co : Str → Str) (d : Disk) (m : QMeta) (
     (acc : List Str → Bool) (next : List Str → List Str) (dsn : Option Dsn) :
     panSeens (attempt vis co d m h acc next dsn).2 = [] := by
   unfold attempt
-  by_cases hne : next m.to = []
+  by_cases hne : pending next m.to = []
   · simp [hne, panSeens, panSeens_append, panSeens_emitDSN]
   · simp [hne, panSeens, panSeens_append, panSeens_emitDSN]
 
@@ -771,19 +859,19 @@ theorem attempt_spec {vis : Vis} {co : Str → Str} {a : Accepted} (hv : VisOK v
     (hs : EnvelopeSafe co a) {to : List Str} (hsafe : ∀ r ∈ to, co r = r)
     {d : Disk} {m : QMeta} (hd1 : d.hdrFile = writeHeader a.hdr) (hd2 : d.bodyFile = a.body)
     (hm : Agrees a to m) (acc : List Str → Bool) (next : List Str → List Str) (dsn : Option Dsn)
-    (hn : ∀ r, r ∈ next to → r ∈ to) :
+    (hn : ∀ r, r ∈ pending next to → r ∈ to) :
     seens (attempt vis co d m a.hdr acc next dsn).2 =
       [{ sender := a.qmeta.sender, to := to, utf8 := a.qmeta.msgMeta.utf8,
          requireTLS := a.qmeta.msgMeta.requireTLS,
          tlsRequireOverride := a.qmeta.msgMeta.tlsRequireOverride,
          originalRcpts := a.qmeta.msgMeta.originalRcpts,
          content := if acc to then some (a.hdr, a.body) else none }] ∧
-    (next to = [] → (attempt vis co d m a.hdr acc next dsn).1.disk = none) ∧
-    (next to ≠ [] → Inv a (next to) (attempt vis co d m a.hdr acc next dsn).1) := by
+    (pending next to = [] → (attempt vis co d m a.hdr acc next dsn).1.disk = none) ∧
+    (pending next to ≠ [] → Inv a (pending next to) (attempt vis co d m a.hdr acc next dsn).1) := by
   have hmto := hm.to
   refine ⟨?_, ?_, ?_⟩
   · unfold attempt
-    by_cases hne : next to = []
+    by_cases hne : pending next to = []
     · simp [hne, seens, seens_append, seens_emitDSN, hd2, seenOf_agrees hm, hmto]
     · simp [hne, seens, seens_append, seens_emitDSN, hd2, seenOf_agrees hm, hmto]
   · intro hne
@@ -792,7 +880,7 @@ theorem attempt_spec {vis : Vis} {co : Str → Str} {a : Accepted} (hv : VisOK v
   · intro hne
     unfold attempt
     simp only [hmto, hne, if_false]
-    have hto' : ∀ r ∈ next to, co r = r := fun r hr => hsafe r (hn r hr)
+    have hto' : ∀ r ∈ pending next to, co r = r := fun r hr => hsafe r (hn r hr)
     have hag := agrees_encode hv hs hm hto'
     exact ⟨rfl, ⟨_, rfl, hd1, hd2, hag, by simp [encodeMeta]⟩, by intro m' h' hc; simp at hc⟩
 
@@ -848,9 +936,9 @@ theorem runFrom_spec {vis : Vis} {co : Str → Str} {a : Accepted} (hv : VisOK v
         rw [h2]
         exact seenUpTo_panOK hm stage _
     | attempt acc next dsn =>
-      have hok : ∀ r, r ∈ next to → r ∈ to := by
+      have hok : ∀ r, r ∈ pending next to → r ∈ to := by
         have := hsteps (.attempt acc next dsn) (by simp)
-        exact fun r => this to r
+        exact fun r hr => this to r (mem_pending.mp hr)
       -- the attempt runs with metadata agreeing with the accepted envelope and the accepted header
       have key : ∃ m, Agrees a to m ∧ step vis co s (.attempt acc next dsn) = attempt vis co d m a.hdr acc next dsn := by
         cases hslot : s.slot with
@@ -865,11 +953,11 @@ theorem runFrom_spec {vis : Vis} {co : Str → Str} {a : Accepted} (hv : VisOK v
       obtain ⟨hseen, hgone, hinv⟩ := attempt_spec hv hs hsafe h1 h2 hm acc next dsn hok
       have hpan := panSeens_attempt vis co d m a.hdr acc next dsn
       simp only [runFrom, hstep, attemptsOf, spec, seens_append, hseen, panSeens_append, hpan]
-      by_cases hne : next to = []
+      by_cases hne : pending next to = []
       · have hg := runFrom_gone vis co rest _ (hgone hne)
         simp [hne, hg.1, seens, hg.2, panSeens]
-      · have hsafe' : ∀ r ∈ next to, co r = r := fun r hr => hsafe r (hok r hr)
-        have := ih hrest (next to) _ hsafe' (hinv hne)
+      · have hsafe' : ∀ r ∈ pending next to, co r = r := fun r hr => hsafe r (hok r hr)
+        have := ih hrest (pending next to) _ hsafe' (hinv hne)
         simp [hne, this.1]
         exact this.2
 
@@ -946,9 +1034,9 @@ theorem runFrom_pending {vis : Vis} {co : Str → Str} {a : Accepted} (hv : VisO
       have := ih hrest hnprest to _ hsafe hi' hp
       simpa [runFrom, hstep] using this
     | attempt acc next dsn =>
-      have hok : ∀ r, r ∈ next to → r ∈ to := by
+      have hok : ∀ r, r ∈ pending next to → r ∈ to := by
         have := hsteps (.attempt acc next dsn) (by simp)
-        exact fun r => this to r
+        exact fun r hr => this to r (mem_pending.mp hr)
       have key : ∃ m, Agrees a to m ∧ step vis co s (.attempt acc next dsn) = attempt vis co d m a.hdr acc next dsn := by
         cases hslot : s.slot with
         | some mh =>
@@ -961,11 +1049,11 @@ theorem runFrom_pending {vis : Vis} {co : Str → Str} {a : Accepted} (hv : VisO
       obtain ⟨m, hm, hstep⟩ := key
       obtain ⟨_, _, hinv⟩ := attempt_spec hv hs hsafe h1 h2 hm acc next dsn hok
       simp only [attemptsOf, pendingAfter] at hp ⊢
-      by_cases hne : next to = []
+      by_cases hne : pending next to = []
       · simp [hne] at hp
       · simp only [hne, if_false] at hp ⊢
-        have hsafe' : ∀ r ∈ next to, co r = r := fun r hr => hsafe r (hok r hr)
-        have := ih hrest hnprest (next to) _ hsafe' (hinv hne) hp
+        have hsafe' : ∀ r ∈ pending next to, co r = r := fun r hr => hsafe r (hok r hr)
+        have := ih hrest hnprest (pending next to) _ hsafe' (hinv hne) hp
         simpa [runFrom, hstep] using this
 
 /-- **C10 (a pending message is not dropped).** The other half of "the target is handed the
@@ -1017,10 +1105,10 @@ theorem spec_length_of_pending (a : Accepted) :
     intro to hp
     obtain ⟨acc, next⟩ := x
     simp only [pendingAfter] at hp
-    by_cases hne : next to = []
+    by_cases hne : pending next to = []
     · simp [hne] at hp
     · simp only [hne, if_false] at hp
-      simp [spec, hne, ih (next to) hp]
+      simp [spec, hne, ih (pending next to) hp]
 
 theorem C10_every_attempt_step_is_an_attempt (co : Str → Str) (a : Accepted)
     (hwf : ∀ f ∈ a.hdr, WFField f) (hs : EnvelopeSafe co a) (steps : List Step)
@@ -1033,6 +1121,73 @@ theorem C10_every_attempt_step_is_an_attempt (co : Str → Str) (a : Accepted)
 
 /-! ## failure reports (bounces) generated between attempts -/
 
+/-- once an attempt has rewritten it, the pending list names every address once -/
+theorem pendingAfter_nodup :
+    ∀ (atts : List ((List Str → Bool) × (List Str → List Str))) (to : List Str),
+      (to.Nodup ∨ atts ≠ []) → (pendingAfter to atts).Nodup := by
+  intro atts
+  induction atts with
+  | nil => intro to h; simpa [pendingAfter] using h
+  | cons x rest ih =>
+    intro to _
+    obtain ⟨acc, next⟩ := x
+    simp only [pendingAfter]
+    by_cases hne : pending next to = []
+    · simp [hne]
+    · simp only [hne, if_false]
+      exact ih _ (Or.inl (nodup_dedup _))
+
+/-- every attempt after the first one is handed every pending address once (the first one is handed
+the accepted list as it is) -/
+theorem spec_tail_nodup (a : Accepted) :
+    ∀ (atts : List ((List Str → Bool) × (List Str → List Str))) (to : List Str),
+      ∀ s ∈ (spec a to atts).tail, s.to.Nodup := by
+  have all : ∀ (atts : List ((List Str → Bool) × (List Str → List Str))) (to : List Str),
+      to.Nodup → ∀ s ∈ spec a to atts, s.to.Nodup := by
+    intro atts
+    induction atts with
+    | nil => intro to _ s hs; simp [spec] at hs
+    | cons x rest ih =>
+      intro to hto s hs
+      obtain ⟨acc, next⟩ := x
+      simp only [spec, List.mem_cons] at hs
+      rcases hs with rfl | hs
+      · exact hto
+      · by_cases hne : pending next to = []
+        · simp [hne] at hs
+        · simp only [hne, if_false] at hs
+          exact ih _ (nodup_dedup _) s hs
+  intro atts to s hs
+  cases atts with
+  | nil => simp [spec] at hs
+  | cons x rest =>
+    obtain ⟨acc, next⟩ := x
+    simp only [spec, List.tail_cons] at hs
+    by_cases hne : pending next to = []
+    · simp [hne] at hs
+    · simp only [hne, if_false] at hs
+      exact all rest _ (nodup_dedup _) s hs
+
+/-- **C10 (an address listed twice is one recipient).** For an envelope that repeats a recipient
+(a client repeating RCPT TO, two aliases with one expansion): the first attempt is handed the
+accepted list as it is; from then on - every later attempt, and the spool's metadata at rest after
+at least one attempt step - each pending address is named ONCE.  Who is pending is not touched by
+that (`C10_pending_is_the_retry_set_each_once`). -/
+theorem C10_repeated_recipient_is_pending_once (co : Str → Str) (a : Accepted)
+    (hwf : ∀ f ∈ a.hdr, WFField f) (hs : EnvelopeSafe co a) (steps : List Step)
+    (hsteps : ∀ st ∈ steps, StepOK st) :
+    (∀ s ∈ (seens (run genVis co a steps).2).tail, s.to.Nodup) ∧
+    ((∀ st ∈ steps, NoPanic st) → attemptsOf steps ≠ [] →
+      pendingAfter a.qmeta.to (attemptsOf steps) ≠ [] →
+      ∃ d, (run genVis co a steps).1.disk = some d ∧
+        d.metaFile.to = pendingAfter a.qmeta.to (attemptsOf steps) ∧ d.metaFile.to.Nodup) := by
+  refine ⟨?_, ?_⟩
+  · rw [C10_roundtrip co a hwf hs steps hsteps]
+    exact spec_tail_nodup a _ _
+  · intro hnp hatt hp
+    obtain ⟨_, d, hd, _, _, hto, _⟩ := C10_pending_message_kept co a hwf hs steps hsteps hnp hp
+    exact ⟨d, hd, hto, hto ▸ pendingAfter_nodup _ _ (Or.inr hatt)⟩
+
 theorem attempt_reports {vis : Vis} {co : Str → Str} {a : Accepted} {to : List Str} {d : Disk}
     {m : QMeta} (hm : Agrees a to m) (acc : List Str → Bool) (next : List Str → List Str)
     (dsn : Option Dsn) :
@@ -1040,7 +1195,7 @@ theorem attempt_reports {vis : Vis} {co : Str → Str} {a : Accepted} {to : List
       r = ⟨a.qmeta.sender, a.qmeta.msgMeta.utf8, a.hdr⟩ := by
   intro r hr
   unfold attempt at hr
-  by_cases hne : next m.to = []
+  by_cases hne : pending next m.to = []
   · simp [hne, reports, reports_append] at hr
     have := reports_emitDSN m a.hdr dsn r hr
     simpa [hm.sender, hm.utf8] using this
@@ -1082,9 +1237,9 @@ theorem runFrom_reports {vis : Vis} {co : Str → Str} {a : Accepted} (hv : VisO
       simp only [runFrom, hstep, hg.1, List.append_nil] at hr
       simp [panicAttempt, reports] at hr
     | attempt acc next dsn =>
-      have hok : ∀ r, r ∈ next to → r ∈ to := by
+      have hok : ∀ r, r ∈ pending next to → r ∈ to := by
         have := hsteps (.attempt acc next dsn) (by simp)
-        exact fun r => this to r
+        exact fun r hr => this to r (mem_pending.mp hr)
       have key : ∃ m, Agrees a to m ∧ step vis co s (.attempt acc next dsn) = attempt vis co d m a.hdr acc next dsn := by
         cases hslot : s.slot with
         | some mh =>
@@ -1099,11 +1254,11 @@ theorem runFrom_reports {vis : Vis} {co : Str → Str} {a : Accepted} (hv : VisO
       simp only [runFrom, hstep, reports_append, List.mem_append] at hr
       rcases hr with hr | hr
       · exact attempt_reports hm acc next dsn r hr
-      · by_cases hne : next to = []
+      · by_cases hne : pending next to = []
         · have hg := runFrom_gone vis co rest _ (hgone hne)
           simp [hg.1, reports] at hr
-        · have hsafe' : ∀ r ∈ next to, co r = r := fun r hr => hsafe r (hok r hr)
-          exact ih hrest (next to) _ hsafe' (hinv hne) r hr
+        · have hsafe' : ∀ r ∈ pending next to, co r = r := fun r hr => hsafe r (hok r hr)
+          exact ih hrest (pending next to) _ hsafe' (hinv hne) r hr
 
 /-- **C10 (reports).** Every failure report the queue generates for an accepted message - in
 whichever attempt, from memory or after any number of restarts - quotes the ACCEPTED header, is
@@ -1160,7 +1315,7 @@ theorem step_noBounce (vis : Vis) (co : Str → Str) (s : St) (st : Step) :
     intro d m h acc next dsn
     have h0 : emitDSN m h none = [] := rfl
     unfold attempt
-    by_cases hne : next m.to = []
+    by_cases hne : pending next m.to = []
     · simp [hne, h0, notReport, List.filter_cons, List.filter_append, filter_notReport_emitDSN]
     · simp [hne, h0, notReport, List.filter_cons, List.filter_append, filter_notReport_emitDSN]
   cases st with
@@ -1292,7 +1447,7 @@ theorem step_docs_no_conn (vis : Vis) (co : Str → Str) (s : St) (st : Step) (h
         ∀ doc ∈ docs (attempt vis co d m h acc next dsn).2, doc.msgMeta.conn = none := by
       intro d m h
       unfold attempt
-      by_cases hne : next m.to = []
+      by_cases hne : pending next m.to = []
       · refine ⟨by intro d' hd'; simp [hne] at hd', ?_⟩
         intro doc hmem
         simp [hne, docs, docs_append, docs_emitDSN] at hmem
@@ -1578,6 +1733,24 @@ example : ((run (fun _ => true) exCo { exAccepted with body := [] } (.restart ::
 example : ((run (fun _ => true) exCo exAccepted exSteps).2.filterMap fun e =>
     match e with | .seen _ c => some c | _ => none) = [true, false, false] := by decide
 
+
+/-- an envelope that lists recipient 3 twice: the first attempt (everybody deferred) is handed
+`[3, 4, 3]`, the retry after the restart `[3, 4]`; at rest the spool lists `[3]` -/
+def exAcceptedD : Accepted := { exAccepted with qmeta := { exAccepted.qmeta with to := [3, 4, 3] } }
+def exStepsD : List Step :=
+  [.attempt (fun _ => true) (fun to => to) none, .restart,
+   .attempt (fun _ => true) (fun to => to.filter (· == 3)) none]
+example : EnvelopeSafe exCo exAcceptedD := ⟨by decide, by decide, by decide⟩
+example : ∀ st ∈ exStepsD, StepOK st := by
+  intro st h
+  simp [exStepsD] at h
+  rcases h with rfl | rfl | rfl
+  · intro to r hr; exact hr
+  · trivial
+  · intro to r hr; exact (List.mem_filter.mp hr).1
+example : (seens (run (fun _ => true) exCo exAcceptedD exStepsD).2).map (·.to) = [[3, 4, 3], [3, 4]] := by decide
+example : pendingAfter exAcceptedD.qmeta.to (attemptsOf exStepsD) = [3] := by decide
+example : ((run (fun _ => true) exCo exAcceptedD exStepsD).1.disk.map (·.metaFile.to)) = some [3] := by decide
 
 /-- the example message with a non-null sender (2), accepted WITHOUT SMTPUTF8 -/
 def exAcceptedB : Accepted :=
